@@ -382,7 +382,7 @@ func (m *callMode) decode(i int64) callCase {
 	}
 	i -= m.nB3
 	// seeded sample
-	r := hx.NewRand(m.o.seed*1000003 + uint64(i))
+	r := hx.NewRand(m.o.seed*1000003 + uint64(i)).Split() // Split: consecutive seeds of hx.NewRand are shifted copies of one stream
 	cc := callCase{callable: r.Intn(len(m.cs))}
 	na := 2 + r.Intn(3)
 	if r.Intn(4) == 0 {
@@ -436,12 +436,12 @@ func (m *callMode) Run(i int64) string {
 
 func (m *callMode) isHuge(cc callCase) bool {
 	for _, a := range cc.args {
-		if m.pool[a].huge || strings.Contains(m.pool[a].name, "1<<") {
+		if m.pool[a].huge {
 			return true
 		}
 	}
 	for _, a := range cc.kwv {
-		if m.pool[a].huge || strings.Contains(m.pool[a].name, "1<<") {
+		if m.pool[a].huge {
 			return true
 		}
 	}
@@ -527,7 +527,7 @@ func (m *callMode) Key(i int64, kind, detail string) string {
 
 func (m *callMode) Timeout(i int64) time.Duration {
 	if m.isHuge(m.decode(i)) {
-		return 1500 * time.Millisecond
+		return 1000 * time.Millisecond
 	}
 	return 0
 }
